@@ -81,7 +81,7 @@ var Types = []TypeInfo{
 	{19, "named-func", "local", false},
 	// Type 20 is also a flow value: it is assignable to type 7, so a generator bug that passes
 	// the wrong provider's variable can still compile.
-	{20, "impl-struct", "local", true},    // i7, implements interface type 7
+	{20, "impl-struct", "local", true}, // i7, implements interface type 7
 	// Types 21..23 are only used as Slice/Map element or parameter types
 	// (assignability lattice), never as flow values.
 	{21, "unnamed-slice", "local", false}, // []int64, underlying type of type 3
